@@ -49,6 +49,26 @@ def cases(ctx):
         ctx.count('int')
         yield from script_cases(ctx, [k], 'int')
     yield from script_cases(ctx, [-1], 'neg')
+    # an integer and a data token that print the same (1000 vs "1000"), in both orders within one process
+    for k in [17, 18, 99, 1000, 1234, 2024, 500000, 65536, 16777216, 10 ** 9 + 7, 4000000000] + [rng.randrange(17, 10 ** 8) for _ in range(ctx.n(10, 300))]:
+        d = str(k) if len(str(k)) % 2 == 0 else '0' + str(k)
+        for toks in ([k], [d], [str(k)] if len(str(k)) % 2 == 0 else [d], [k, d], [d, k]):
+            ctx.count('int-vs-data')
+            yield from script_cases(ctx, toks, 'int-vs-data')
+    # a parsed script is edited in place, then the same bytes are parsed again
+    for _ in range(ctx.n(40, 1500)):
+        toks = [G.token(rng, names, big=False) for _ in range(rng.choice([1, 2, 3, 5]))]
+        try:
+            from bitcoinutils.script import Script
+            raw = Script(list(toks)).to_bytes()
+        except Exception:
+            continue
+        seg = rng.randrange(2)
+        ts = toks_str(toks)
+        ctx.count('parse-mutate-parse')
+        yield Case(f'disasm_after {hx(raw)} {seg} {tok_str(G.token(rng, names, big=False))}', 'ms', nontrivial=True, tag='parse-mutate-parse',
+                   model=lambda ans, raw=raw, seg=seg: (f'm:disasm {hx(raw)} {seg}', ans),
+                   spec=lambda ans, ts=ts: (f's:renders {ts} {ans[3:]}', 'ok 1') if ans.startswith('ok ') else ('s:echo raised', 'ok 1'))
     for _ in range(ctx.n(700, 30000)):
         n = rng.choice([0, 2, 3, 4, 5, 8, 12, 20, 40, 60])
         toks = [G.token(rng, names, big=(rng.random() < 0.03)) for _ in range(n)]
@@ -73,6 +93,12 @@ def impl(op, a, ctx):
     if op == 'disasm':
         b = F.bytes(); seg = F.bool()
         return 'ok ' + toks_str(Script.from_raw(b.hex(), has_segwit=seg).script)
+    if op == 'disasm_after':
+        b = F.bytes(); seg = F.bool(); t = F.tok()
+        s1 = Script.from_raw(b.hex(), has_segwit=seg)
+        s1.get_script().append(t); s1.get_script().insert(0, t)
+        if s1.script: s1.script[len(s1.script) // 2] = t
+        return 'ok ' + toks_str(Script.from_raw(b.hex(), has_segwit=not seg if False else seg).script)
     if op == 'reasm':
         b = F.bytes(); seg = F.bool()
         return 'ok ' + hx(Script.from_raw(b.hex(), has_segwit=seg).to_bytes())
